@@ -156,6 +156,12 @@ def judge(run, meta, out, bout, crc):
             if tag(o[2]) != 'ok' or unhx(o[2][1]) != p:
                 run.fail('roundtrip-differs', 'decompress(compress(x)) = %s' % show(o[2])[:60], case)
                 continue
+            # after a decompression that failed part-way (the block cut in half) the intact block still decompresses to x
+            if len(o) > 3 and tag(o[3]) != 'skipped':
+                run.count('after-failed-decompress:' + show(o[3]))
+                if tag(o[3]) != 'ok' or o[3][2] != '1':
+                    run.fail('roundtrip-differs-after-failure', 'after decompressing a truncated block, decompress(compress(x)) no longer returns x (%s)' % show(o[3])[:40], case)
+                    continue
             try:
                 if codec == 'null':
                     ok = comp == p
